@@ -124,6 +124,23 @@ Proof.
   - apply IH; auto. intros y Hy. apply D. right. exact Hy.
 Qed.
 
+
+(* bound k1 is at least as strict as bound k2 *)
+Definition kle (k1 k2 : option nat) : Prop :=
+  match k2 with
+  | None => True
+  | Some r2 => match k1 with Some r1 => r1 <= r2 | None => False end
+  end.
+
+Lemma kle_refl k : kle k k.
+Proof. destruct k; cbn; auto. Qed.
+
+Lemma kle_bound rk0 k1 k2 u : kle k1 k2 -> bound_ok rk0 k1 u = true -> bound_ok rk0 k2 u = true.
+Proof.
+  destruct k2 as [r2|]; [|reflexivity]. destruct k1 as [r1|]; cbn; [|contradiction].
+  intros L B. apply Nat.ltb_lt in B. apply Nat.ltb_lt. lia.
+Qed.
+
 Section Once.
 Variable ustate : Type.
 Variable scfg : state_cfg.
@@ -133,21 +150,28 @@ Variable rcfg : rule_cfg.
 Variable hk : hooks ustate.
 Variable g : grammar.
 Variable nul : name -> bool.
-Variable rk : runit -> nat.
-Hypothesis WF : wf_check_once g nul rk = true.
+Variable rkX : list name -> runit -> nat.
+Variable dem : list name -> runit -> bool.
+Hypothesis Hnul : nul_okX g nul = true.
+Hypothesis Hunit : forall X u, dem X u = true -> unit_ok g nul rkX dem X u = true.
+Hypothesis Hmemo : forall X u, dem X u = true -> memo_ok g rkX X u = true.
 Hypothesis Hclosed : memo_closed rcfg = true.
 Variable LEN : nat.                       (* the length of the input *)
 
 Notation glb := (glob ustate).
 Notation Run := (run ustate scfg tcfg fcfg rcfg hk g).
 Notation enull := (enull nul).
-Notation wfe := (wfeS nul rk).
-Notation wfseq := (wfseqS nul rk).
+Notation wfe := (wfeX nul rkX dem).
+Notation wfseq := (wfseqX nul rkX dem).
+Notation callb := (callb rkX dem).
+Notation wsb := (wsb rkX dem).
+Notation rk0 := (rkX []).
 
 Definition ent := (name * nat)%type.
 
+(* memoized rules have one rank (rk0, the one of the empty context) *)
 Definition okent (p : nat) (k : option nat) (e : ent) : Prop :=
-  p < snd e \/ (snd e = p /\ bound_ok rk k (UCall (fst e)) = true).
+  p < snd e \/ (snd e = p /\ bound_ok rk0 k (UCall (fst e)) = true).
 
 Definition has_entry (e : ent) (gl : glb) : Prop := cache_get (fst e) (snd e) (g_cache gl) <> None.
 
@@ -170,10 +194,10 @@ Definition CInv (gl : glb) : Prop :=
   forall n o v s, cache_get n o (g_cache gl) = Some (COk v s) -> o <= off s /\ (off s = o -> nul n = true) /\ bnd LEN s.
 
 Lemma okent_weaken p k p' k' e :
-  okent p' k' e -> p <= p' -> (p = p' -> forall u, bound_ok rk k' u = true -> bound_ok rk k u = true) -> okent p k e.
+  okent p' k' e -> p <= p' -> (p = p' -> kle k' k) -> okent p k e.
 Proof.
   intros [H|[H1 H2]] L B; [left; lia|].
-  destruct (Nat.eq_dec p p') as [->|N]; [right; split; [exact H1|apply B; auto]|left; lia].
+  destruct (Nat.eq_dec p p') as [->|N]; [right; split; [exact H1|eapply kle_bound; eauto]|left; lia].
 Qed.
 
 Lemma G_refl p k gl : G p k gl gl.
@@ -198,7 +222,7 @@ Proof.
 Qed.
 
 Lemma G_weaken p k p' k' gl gl' :
-  G p' k' gl gl' -> p <= p' -> (p = p' -> forall u, bound_ok rk k' u = true -> bound_ok rk k u = true) -> G p k gl gl'.
+  G p' k' gl gl' -> p <= p' -> (p = p' -> kle k' k) -> G p k gl gl'.
 Proof.
   intros [M (d & E & F & N & A & C & T)] Lp B. split; [exact M|]. exists d. split; [exact E|]. split; [|auto].
   eapply Forall_impl; [|exact F]. intros e H. eapply okent_weaken; eauto.
@@ -218,41 +242,51 @@ Proof. unfold kat. rewrite Nat.eqb_refl. reflexivity. Qed.
 
 Lemma G_kat st st1 k gl gl' : off st <= off st1 -> G (off st1) (kat st st1 k) gl gl' -> G (off st) k gl gl'.
 Proof.
-  intros Lp H. eapply G_weaken; [exact H|exact Lp|]. intros E u B. unfold kat in B. rewrite <- E, Nat.eqb_refl in B. exact B.
+  intros Lp H. eapply G_weaken; [exact H|exact Lp|]. intros E. unfold kat. rewrite <- E, Nat.eqb_refl. apply kle_refl.
 Qed.
 
-Lemma bound_kat st st1 k u : bound_ok rk k u = true -> bound_ok rk (kat st st1 k) u = true.
-Proof. unfold kat. destruct (Nat.eqb (off st1) (off st)); auto. Qed.
+Lemma callb_kat st st1 X k u : callb X k u = true -> callb X (kat st st1 k) u = true.
+Proof. unfold kat. destruct (Nat.eqb (off st1) (off st)); [auto|apply callb_weaken]. Qed.
 
-Lemma ws_ok_kat st st1 k s : ws_ok rk k s = true -> ws_ok rk (kat st st1 k) s = true.
-Proof. unfold ws_ok. destruct s; [apply bound_kat|auto]. Qed.
+Lemma wsb_kat st st1 X k s : wsb X k s = true -> wsb X (kat st st1 k) s = true.
+Proof. unfold kat. destruct (Nat.eqb (off st1) (off st)); [auto|apply wsb_weaken]. Qed.
 
-Lemma wfe_kat st st1 x k s e : wfe x k s e = true -> wfe x (kat st st1 k) s e = true.
-Proof. unfold kat. destruct (Nat.eqb (off st1) (off st)); [auto|apply wfeS_weaken]. Qed.
+Lemma wfe_kat st st1 X k s e : wfe X k s e = true -> wfe X (kat st st1 k) s e = true.
+Proof. unfold kat. destruct (Nat.eqb (off st1) (off st)); [auto|apply wfeX_weaken]. Qed.
 
-Lemma wfseq_kat st st1 x k s ps : wfseq x k s ps = true -> wfseq x (kat st st1 k) s ps = true.
-Proof. unfold kat. destruct (Nat.eqb (off st1) (off st)); [auto|apply wfseqS_weaken]. Qed.
+Lemma wfseq_kat st st1 X k s ps : wfseq X k s ps = true -> wfseq X (kat st st1 k) s ps = true.
+Proof. unfold kat. destruct (Nat.eqb (off st1) (off st)); [auto|apply wfseqX_weaken]. Qed.
 
-(* the exemption: inside the body of the @leftrec rule x, and as long as nothing has been consumed
-   (k is not None), x has its cache entry at the current offset *)
+(* the open set: as long as nothing has been consumed (k is not None), every rule of X is a
+   @leftrec rule with its cache entry at the current offset *)
 Definition mono (gl gl' : glb) : Prop := forall e, has_entry e gl -> has_entry e gl'.
 
-Definition opn (x : option name) (k : option nat) (st : pstate) (gl : glb) : Prop :=
-  forall a, x = Some a -> is_lrule g a = true /\ (k <> None -> has_entry (a, off st) gl).
+Definition opn (X : list name) (k : option nat) (st : pstate) (gl : glb) : Prop :=
+  forall a, In a X -> is_lrule g a = true /\ (k <> None -> has_entry (a, off st) gl).
 
-Lemma opn_none k st gl : opn None k st gl.
-Proof. intros a H. discriminate. Qed.
+Lemma opn_nil k st gl : opn [] k st gl.
+Proof. intros a []. Qed.
 
-Lemma opn_kat x k k' st st1 gl gl1 :
-  (k' <> None -> k <> None) -> mono gl gl1 -> opn x k st gl -> opn x (kat st st1 k') st1 gl1.
+Lemma opn_kat X k k' st st1 gl gl1 :
+  (k' <> None -> k <> None) -> mono gl gl1 -> opn X k st gl -> opn X (kat st st1 k') st1 gl1.
 Proof.
   intros K M O a Ha. destruct (O a Ha) as [L H]. split; [exact L|]. unfold kat.
   destruct (Nat.eqb (off st1) (off st)) eqn:Q; [|intro N; exfalso; apply N; reflexivity].
   apply Nat.eqb_eq in Q. intro N. rewrite Q. apply M. apply H. apply K. exact N.
 Qed.
 
-Lemma opn_same x k st st1 gl gl1 : off st1 = off st -> mono gl gl1 -> opn x k st gl -> opn x k st1 gl1.
+Lemma opn_same X k st st1 gl gl1 : off st1 = off st -> mono gl gl1 -> opn X k st gl -> opn X k st1 gl1.
 Proof. intros E M O a Ha. destruct (O a Ha) as [L H]. split; [exact L|]. intro N. rewrite E. apply M. apply H. exact N. Qed.
+
+(* entering a unit: its body runs under the context that is still known *)
+Lemma opn_cx X k st gl r : opn X k st gl -> opn (cx X k) (Some r) st gl.
+Proof.
+  intros O a Ha. destruct k as [k0|]; cbn in Ha; [|contradiction]. destruct (O a Ha) as [L H].
+  split; [exact L|]. intros _. apply H. discriminate.
+Qed.
+
+Lemma kle_call X k u : bound_ok (rkX X) k u = true -> kle (Some (rkX (cx X k) u)) k.
+Proof. destruct k as [k0|]; cbn; [|auto]. intro B. apply Nat.ltb_lt in B. lia. Qed.
 
 Lemma G_mono p k gl gl' : G p k gl gl' -> mono gl gl'.
 Proof. intros [M _]. exact M. Qed.
@@ -260,9 +294,10 @@ Proof. intros [M _]. exact M. Qed.
 Lemma mono_refl gl : mono gl gl.
 Proof. intros e H. exact H. Qed.
 
-(* a rule may be called when its rank is below the bound, or when it is the open @leftrec rule *)
-Definition callok (k : option nat) (n : name) (st : pstate) (gl : glb) : Prop :=
-  bound_ok rk k (UCall n) = true \/ (is_lrule g n = true /\ has_entry (n, off st) gl).
+(* a rule may be called when its unit is demanded and its rank is below the bound, or when it is
+   an open @leftrec rule *)
+Definition callok (X : list name) (k : option nat) (n : name) (st : pstate) (gl : glb) : Prop :=
+  callb X k (UCall n) = true \/ (is_lrule g n = true /\ has_entry (n, off st) gl).
 
 Definition bestok (n : name) (st : pstate) (c : cached) : Prop :=
   match c with
@@ -283,36 +318,39 @@ Proof.
 Qed.
 
 Lemma wf_ws' : nul n_Whitespace = true.
-Proof. exact (wfo_ws g nul rk WF). Qed.
+Proof. unfold nul_okX in Hnul. apply andb_prop in Hnul. tauto. Qed.
+
+Lemma wf_nul' gr : In gr g -> nul_ok_rule nul gr = true.
+Proof. unfold nul_okX in Hnul. apply andb_prop in Hnul. destruct Hnul as [_ W]. rewrite forallb_forall in W. auto. Qed.
 
 Section Step.
 Variable ev : evals ustate.
-Hypothesis IHe : forall ctx e st gl x k, wfe x k (c_skip ctx) e = true -> opn x k st gl -> CInv gl -> bnd LEN st ->
+Hypothesis IHe : forall ctx e st gl X k, wfe X k (c_skip ctx) e = true -> opn X k st gl -> CInv gl -> bnd LEN st ->
   postA (enull e) k st gl (ev_expr ev ctx e st gl).
-Hypothesis IHr : forall n st gl k, callok k n st gl -> CInv gl -> bnd LEN st ->
+Hypothesis IHr : forall n st gl X k, callok X k n st gl -> opn X k st gl -> CInv gl -> bnd LEN st ->
   postA (nul n) k st gl (ev_rule ev n st gl).
-Hypothesis IHl : forall ctx b plus st it acc gl x k, wfe x k (c_skip ctx) b = true -> enull b = false ->
-  opn x k st gl -> CInv gl -> bnd LEN st ->
+Hypothesis IHl : forall ctx b plus st it acc gl X k, wfe X k (c_skip ctx) b = true -> enull b = false ->
+  opn X k st gl -> CInv gl -> bnd LEN st ->
   postA (negb (plus && Nat.eqb it 0)) k st gl (ev_loop ev ctx b plus st it acc gl).
-Hypothesis IHg : forall r st best gl, In (GRule r) g -> find_grule g (r_name r) = Some (GRule r) ->
-  fl_left_recursive (flags_of (r_directives r)) = true ->
-  has_entry (r_name r, off st) gl -> bestok (r_name r) st best -> CInv gl -> bnd LEN st ->
-  postA (nul (r_name r)) (Some (rk (UCall (r_name r)))) st gl (ev_grow ev r st best gl).
+Hypothesis IHg : forall r X st best gl, In (GRule r) g -> find_grule g (r_name r) = Some (GRule r) ->
+  fl_left_recursive (flags_of (r_directives r)) = true -> dem X (UCall (r_name r)) = true ->
+  opn (r_name r :: X) (Some (rkX X (UCall (r_name r)))) st gl -> bestok (r_name r) st best -> CInv gl -> bnd LEN st ->
+  postA (nul (r_name r)) (Some (rkX X (UCall (r_name r)))) st gl (ev_grow ev r st best gl).
 
-Lemma with_ws_post {A} nl ctx st gl k (kont : pstate -> glb -> R ustate A) :
-  ws_ok rk k (c_skip ctx) = true -> CInv gl -> bnd LEN st ->
+Lemma with_ws_post {A} nl ctx st gl X k (kont : pstate -> glb -> R ustate A) :
+  wsb X k (c_skip ctx) = true -> opn X k st gl -> CInv gl -> bnd LEN st ->
   (forall st1 gl1, off st <= off st1 -> mono gl gl1 -> CInv gl1 -> bnd LEN st1 -> postA nl (kat st st1 k) st1 gl1 (kont st1 gl1)) ->
   postA nl k st gl (with_ws ustate ev ctx st gl kont).
 Proof.
-  intros W C Bd H. unfold with_ws. unfold ws_ok in W. destruct (c_skip ctx).
-  - pose proof (IHr n_Whitespace st gl k (or_introl W) C Bd) as P.
+  intros W O C Bd H. unfold with_ws. unfold OnceWF.wsb in W. destruct (c_skip ctx).
+  - pose proof (IHr n_Whitespace st gl X k (or_introl W) O C Bd) as P.
     destruct (ev_rule ev n_Whitespace st gl) as [[v st1|e|p|] gl1]; cbn in P; cbn; auto.
     destruct P as (P1 & _ & P3 & P4 & P5).
     eapply postA_later; [exact P1|exact P3| |apply H; auto]. auto. exact (G_mono _ _ _ _ P3).
   - specialize (H st gl (Nat.le_refl _) (mono_refl gl) C Bd). rewrite kat_same in H. exact H.
 Qed.
 
-Lemma lift_post {X Y} (f : X -> Y) sp nl k st gl (r : tres X) :
+Lemma lift_post {Y Z} (f : Y -> Z) sp nl k st gl (r : tres Y) :
   CInv gl -> bnd LEN st -> tadv st (negb nl) r -> postA nl k st gl (lift_t ustate f sp st r gl).
 Proof.
   intros C Bd T. destruct r as [v st'|e| |]; cbn in *; auto.
@@ -321,10 +359,10 @@ Proof.
   - split; [apply G_same; reflexivity|exact C].
 Qed.
 
-Lemma fail_post {X} nl k st st0 gl sp : CInv gl -> postA (A:=X) nl k st gl (fail_at ustate scfg st0 sp gl).
+Lemma fail_post {Y} nl k st st0 gl sp : CInv gl -> postA (A:=Y) nl k st gl (fail_at ustate scfg st0 sp gl).
 Proof. intro C. cbn. split; [apply G_same; reflexivity|exact C]. Qed.
 
-Lemma no_fields_post {X} nl k st gl (x : R ustate X) : postA nl k st gl x -> postA nl k st gl (no_fields ustate x).
+Lemma no_fields_post {Y} nl k st gl (x : R ustate Y) : postA nl k st gl x -> postA nl k st gl (no_fields ustate x).
 Proof. destruct x as [[v st'|e|p|] gl']; cbn; auto. Qed.
 
 
@@ -335,7 +373,7 @@ Lemma bnd_record st e : bnd LEN st -> bnd LEN (record_error scfg st e).
 Proof. unfold bnd, record_error. destruct (far st); [destruct (if rec_le scfg then _ else _)|]; auto. Qed.
 
 Lemma postA_bound {A} nl nl' k1 k2 st gl (x : R ustate A) :
-  (forall u, bound_ok rk k1 u = true -> bound_ok rk k2 u = true) -> (nl = true -> nl' = true) ->
+  kle k1 k2 -> (nl = true -> nl' = true) ->
   postA nl k1 st gl x -> postA nl' k2 st gl x.
 Proof.
   intros B N P. destruct x as [[v st'|e|p|] gl']; cbn in *; auto.
@@ -352,14 +390,14 @@ Proof.
   intros E G1 N P. apply (postA_later nl nl' k st st1 gl gl1); [lia|exact G1|auto|]. unfold kat. rewrite E, Nat.eqb_refl. exact P.
 Qed.
 
-Lemma choice_loop_post ctx fds x alts : forall cst gl k,
-  forallb (wfe x k (c_skip ctx)) alts = true -> opn x k cst gl -> CInv gl -> bnd LEN cst ->
+Lemma choice_loop_post ctx fds X alts : forall cst gl k,
+  forallb (wfe X k (c_skip ctx)) alts = true -> opn X k cst gl -> CInv gl -> bnd LEN cst ->
   postA (existsb enull alts) k cst gl (choice_loop ustate scfg fcfg g ev ctx fds alts cst gl).
 Proof.
   induction alts as [|a alts IH]; intros cst gl k W O C Bd; cbn [choice_loop].
   - cbn. split; [apply G_refl|exact C].
   - cbn [forallb] in W. apply andb_prop in W. destruct W as [W1 W2].
-    pose proof (IHe ctx a cst gl x k W1 O C Bd) as P.
+    pose proof (IHe ctx a cst gl X k W1 O C Bd) as P.
     destruct (ev_expr ev ctx a cst gl) as [[fs st'|e|p|] gl']; cbn in P; try exact I.
     + destruct P as (P1 & P2 & P3 & P4 & P5).
       destruct (own_fields fcfg g a) as [inner|]; [|exact I].
@@ -371,22 +409,22 @@ Proof.
       * eapply opn_same; [apply off_record|exact (G_mono _ _ _ _ P3)|exact O].
 Qed.
 
-Lemma seq_loop_post ctx fds x parts : forall st acc gl k,
-  wfseq x k (c_skip ctx) parts = true -> opn x k st gl -> CInv gl -> bnd LEN st ->
+Lemma seq_loop_post ctx fds X parts : forall st acc gl k,
+  wfseq X k (c_skip ctx) parts = true -> opn X k st gl -> CInv gl -> bnd LEN st ->
   postA (forallb enull parts) k st gl (seq_loop ustate ev ctx fds parts st acc gl).
 Proof.
   induction parts as [|p ps IH]; intros st acc gl k W O C Bd; cbn [seq_loop].
   - destruct (order_as fds acc); [|exact I]. cbn. split; [lia|]. split; [reflexivity|]. split; [apply G_refl|split; [exact C|exact Bd]].
-  - cbn [wfseqS] in W. apply andb_prop in W. destruct W as [W1 W2].
-    pose proof (IHe ctx p st gl x k W1 O C Bd) as P.
+  - cbn [wfseqX] in W. apply andb_prop in W. destruct W as [W1 W2].
+    pose proof (IHe ctx p st gl X k W1 O C Bd) as P.
     destruct (ev_expr ev ctx p st gl) as [[fs st'|e|pp|] gl']; cbn in P; try exact I; [|exact P].
     destruct P as (P1 & P2 & P3 & P4 & P5).
     destruct (seq_merge_vals acc fs) as [acc'|]; [|exact I].
     eapply postA_later; [exact P1|exact P3| |].
     + intros E H. cbn [forallb]. rewrite (P2 E). exact H.
     + eapply postA_bound; [| |apply (IH st' acc' gl' (kat st st' (if enull p then k else None)) (wfseq_kat _ _ _ _ _ _ W2))]; [|auto| |exact P4|exact P5].
-      * intros u B. unfold kat in *. destruct (Nat.eqb (off st') (off st)) eqn:Q; [|reflexivity].
-        apply Nat.eqb_eq in Q. rewrite (P2 Q) in B. exact B.
+      * unfold kat. destruct (Nat.eqb (off st') (off st)) eqn:Q; [|exact I].
+        apply Nat.eqb_eq in Q. rewrite (P2 Q). apply kle_refl.
       * eapply opn_kat; [|exact (G_mono _ _ _ _ P3)|exact O]. destruct (enull p); [auto|intro N; exfalso; apply N; reflexivity].
 Qed.
 
@@ -405,86 +443,88 @@ Proof.
     specialize (N eq_refl). cbn in N. destruct s; [discriminate|discriminate].
 Qed.
 
-Theorem expr_step_post ctx e st gl x k :
-  wfe x k (c_skip ctx) e = true -> opn x k st gl -> CInv gl -> bnd LEN st ->
+Theorem expr_step_post ctx e st gl X k :
+  wfe X k (c_skip ctx) e = true -> opn X k st gl -> CInv gl -> bnd LEN st ->
   postA (enull e) k st gl (expr_step ustate scfg tcfg fcfg rcfg g ev ctx e st gl).
 Proof.
   intros W O C Bd. destruct e; cbn [expr_step].
   - (* EChoice *)
-    cbn [wfeS] in W.
+    cbn [wfeX] in W.
     destruct alts as [|a [|a2 rest]]; [exact I| |].
     + cbn [forallb] in W. apply andb_prop in W. destruct W as [W _].
-      eapply postA_bound; [| |apply (IHe ctx a st gl x k W O C Bd)]; [auto|]. cbn. intros ->. reflexivity.
-    + destruct (filt fcfg g ctx _); [|exact I]. apply (choice_loop_post ctx _ x); assumption.
+      eapply postA_bound; [| |apply (IHe ctx a st gl X k W O C Bd)]; [apply kle_refl|]. cbn. intros ->. reflexivity.
+    + destruct (filt fcfg g ctx _); [|exact I]. apply (choice_loop_post ctx _ X); assumption.
   - (* ESeq *)
-    rewrite wfeS_seq_eq in W.
+    rewrite wfeX_seq_eq in W.
     destruct parts as [|p [|p2 rest]].
     + cbn. split; [lia|]. split; [reflexivity|]. split; [apply G_refl|split; [exact C|exact Bd]].
-    + cbn [wfseqS] in W. apply andb_prop in W. destruct W as [W _].
-      eapply postA_bound; [| |apply (IHe ctx p st gl x k W O C Bd)]; [auto|]. cbn. intros ->. reflexivity.
-    + destruct (filt fcfg g ctx _); [|exact I]. apply (seq_loop_post ctx _ x); assumption.
-  - (* EGroup *) cbn [wfeS] in W. exact (IHe ctx e st gl x k W O C Bd).
+    + cbn [wfseqX] in W. apply andb_prop in W. destruct W as [W _].
+      eapply postA_bound; [| |apply (IHe ctx p st gl X k W O C Bd)]; [apply kle_refl|]. cbn. intros ->. reflexivity.
+    + destruct (filt fcfg g ctx _); [|exact I]. apply (seq_loop_post ctx _ X); assumption.
+  - (* EGroup *) cbn [wfeX] in W. exact (IHe ctx e st gl X k W O C Bd).
   - (* EOptional *)
-    cbn [wfeS] in W. pose proof (IHe ctx e st gl x k W O C Bd) as P.
+    cbn [wfeX] in W. pose proof (IHe ctx e st gl X k W O C Bd) as P.
     destruct (ev_expr ev ctx e st gl) as [[fs st'|er|p|] gl']; cbn in P; try exact I.
     + destruct P as (P1 & _ & P3 & P4 & P5). cbn. auto.
     + destruct P as (P3 & P4). destruct (filt fcfg g ctx e); [|exact I]. destruct (defaults l); [|exact I].
       cbn. rewrite off_record. split; [lia|]. split; [reflexivity|]. split; [assumption|split; [assumption|apply bnd_record; exact Bd]].
   - (* EClosure *)
-    cbn [wfeS] in W. apply andb_prop in W. destruct W as [W1 W2]. apply Bool.negb_true_iff in W2.
+    cbn [wfeX] in W. apply andb_prop in W. destruct W as [W1 W2]. apply Bool.negb_true_iff in W2.
     destruct (filt fcfg g ctx e); [|exact I].
-    eapply postA_bound; [| |apply (IHl ctx e at_least_one st 0 (empty_vecs l) gl x k W1 W2 O C Bd)]; [auto|].
+    eapply postA_bound; [| |apply (IHl ctx e at_least_one st 0 (empty_vecs l) gl X k W1 W2 O C Bd)]; [apply kle_refl|].
     cbn [WellFormed.enull]. rewrite W2. destruct at_least_one; cbn; auto.
   - (* ENeg *)
-    cbn [wfeS] in W. pose proof (IHe ctx e st gl x k W O C Bd) as P.
+    cbn [wfeX] in W. pose proof (IHe ctx e st gl X k W O C Bd) as P.
     destruct (ev_expr ev ctx e st gl) as [[fs st'|er|p|] gl']; cbn in P; try exact I.
     + destruct P as (_ & _ & P3 & P4 & _). cbn. split; [|exact P4]. eapply G_trans; [exact P3|apply G_same; reflexivity].
     + destruct P as (P3 & P4). cbn. split; [lia|]. split; [reflexivity|]. split; [assumption|split; assumption].
   - (* EPos *)
-    cbn [wfeS] in W. pose proof (IHe ctx e st gl x k W O C Bd) as P.
+    cbn [wfeX] in W. pose proof (IHe ctx e st gl X k W O C Bd) as P.
     destruct (ev_expr ev ctx e st gl) as [[fs st'|er|p|] gl']; cbn in P; try exact I.
     + destruct P as (_ & _ & P3 & P4 & _). cbn. split; [lia|]. split; [reflexivity|]. split; [assumption|split; assumption].
     + exact P.
   - (* ERange *)
-    cbn [wfeS] in W. destruct (compile_range from to); try exact I.
-    apply no_fields_post. apply with_ws_post; [exact W|exact C|exact Bd|]. intros st1 gl1 Lp M1 C1 B1.
+    cbn [wfeX] in W. destruct (compile_range from to); try exact I.
+    apply no_fields_post. apply (with_ws_post _ ctx st gl X); [exact W|exact O|exact C|exact Bd|]. intros st1 gl1 Lp M1 C1 B1.
     apply lift_post; [exact C1|exact B1|]. cbn. apply off_range.
   - (* ELit *)
-    cbn [wfeS] in W. destruct (compile_lit (insens_guard rcfg) insensitive body) as [m| | |] eqn:CL; try exact I.
-    apply no_fields_post. apply with_ws_post; [exact W|exact C|exact Bd|]. intros st1 gl1 Lp M1 C1 B1.
+    cbn [wfeX] in W. destruct (compile_lit (insens_guard rcfg) insensitive body) as [m| | |] eqn:CL; try exact I.
+    apply no_fields_post. apply (with_ws_post _ ctx st gl X); [exact W|exact O|exact C|exact Bd|]. intros st1 gl1 Lp M1 C1 B1.
     apply run_lit_post; [exact C1|exact B1|]. cbn [WellFormed.enull]. intro N.
     eapply compile_lit_nonnull; [exact CL|]. destruct body; [discriminate|discriminate].
   - (* EEoi *)
-    cbn [wfeS] in W. apply no_fields_post. apply with_ws_post; [exact W|exact C|exact Bd|]. intros st1 gl1 Lp M1 C1 B1.
+    cbn [wfeX] in W. apply no_fields_post. apply (with_ws_post _ ctx st gl X); [exact W|exact O|exact C|exact Bd|]. intros st1 gl1 Lp M1 C1 B1.
     apply lift_post; [exact C1|exact B1|]. cbn. apply off_eoi.
   - (* EInclude *)
-    cbn [wfeS] in W. destruct (find_rule g rule) as [r|] eqn:F; [|exact I].
-    destruct (fr_in _ _ _ F) as [I1 I2]. pose proof (wfo_rank g nul rk WF _ I1) as K. cbn [rank_ok_once] in K.
-    apply andb_prop in K. destruct K as [K K3]. apply andb_prop in K. destruct K as [_ K2]. rewrite I2 in K2, K3.
-    pose proof (wfo_nul g nul rk WF _ I1) as Kn. cbn [nul_ok_rule] in Kn. rewrite I2 in Kn.
-    assert (Wb : wfe None (Some (rk (UInc (c_skip ctx) rule))) (c_skip ctx) (r_def r) = true) by (destruct (c_skip ctx); assumption).
-    eapply postA_bound; [| |apply (IHe ctx (r_def r) st gl None _ Wb (opn_none _ _ _) C Bd)].
-    + intros u B. destruct k as [k0|]; [|reflexivity]. cbn in *. apply Nat.ltb_lt in W. apply Nat.ltb_lt in B. apply Nat.ltb_lt. lia.
+    cbn [wfeX] in W. destruct (find_rule g rule) as [r|] eqn:F; [|exact I].
+    destruct (fr_in _ _ _ F) as [I1 I2].
+    unfold OnceWF.callb in W. apply andb_prop in W. destruct W as [W D0]. apply andb_prop in W. destruct W as [B D].
+    pose proof (Hunit _ _ D) as K. cbn [unit_ok] in K. rewrite F in K.
+    pose proof (wf_nul' _ I1) as Kn. cbn [nul_ok_rule] in Kn. rewrite I2 in Kn.
+    eapply postA_bound; [| |apply (IHe ctx (r_def r) st gl (cx X k) _ K (opn_cx _ _ _ _ _ O) C Bd)].
+    + apply kle_call. exact B.
     + cbn [WellFormed.enull]. intro H. rewrite H in Kn. exact Kn.
   - (* EField *)
-    cbn [wfeS] in W. apply andb_prop in W. destruct W as [W1 W2].
+    cbn [wfeX] in W. apply andb_prop in W. destruct W as [W W2]. apply andb_prop in W. destruct W as [W1 D0].
     assert (P : postA (nul typ) k st gl (with_ws ustate ev ctx st gl (fun st0 gl0 => ev_rule ev typ st0 gl0))).
-    { apply with_ws_post; [exact W1|exact C|exact Bd|]. intros st1 gl1 Lp M1 C1 B1. apply IHr; [|exact C1|exact B1].
-      apply Bool.orb_true_iff in W2. destruct W2 as [W2|W2]; [|left; apply bound_kat; exact W2].
-      destruct x as [a|]; [|discriminate]. cbn in W2. apply name_eqb_eq in W2. subst a.
-      assert (O1 : opn (Some typ) (kat st st1 k) st1 gl1) by (eapply opn_kat; [|exact M1|exact O]; auto).
-      destruct (O1 typ eq_refl) as [L H]. destruct (kat st st1 k) as [k0|] eqn:Q; [|left; reflexivity].
-      right. split; [exact L|apply H; discriminate]. }
+    { apply (with_ws_post _ ctx st gl X); [exact W1|exact O|exact C|exact Bd|]. intros st1 gl1 Lp M1 C1 B1.
+      assert (O1 : opn X (kat st st1 k) st1 gl1) by (eapply opn_kat; [|exact M1|exact O]; auto).
+      apply (IHr typ st1 gl1 X); [|exact O1|exact C1|exact B1].
+      apply Bool.orb_true_iff in W2. destruct W2 as [W2|W2]; [|left; apply callb_kat; exact W2].
+      destruct k as [k0|]; [|discriminate]. cbn in W2. apply openb_in in W2.
+      destruct (O1 typ W2) as [L H]. destruct (kat st st1 (Some k0)) as [k1|] eqn:Q.
+      - right. split; [exact L|apply H; discriminate].
+      - left. unfold OnceWF.callb. cbn. rewrite D0. reflexivity. }
     destruct (fname_of fname); [|apply no_fields_post; exact P].
     destruct (with_ws ustate ev ctx st gl (fun st0 gl0 => ev_rule ev typ st0 gl0)) as [[v st'|er|p|] gl']; cbn in P; try exact I; [|exact P].
     destruct (postprocess (c_fields ctx) n typ v); [exact P|exact I].
 Qed.
 
-Theorem loop_step_post ctx b plus st it acc gl x k :
-  wfe x k (c_skip ctx) b = true -> enull b = false -> opn x k st gl -> CInv gl -> bnd LEN st ->
+Theorem loop_step_post ctx b plus st it acc gl X k :
+  wfe X k (c_skip ctx) b = true -> enull b = false -> opn X k st gl -> CInv gl -> bnd LEN st ->
   postA (negb (plus && Nat.eqb it 0)) k st gl (loop_step ustate scfg ev ctx b plus st it acc gl).
 Proof.
-  intros W N O C Bd. unfold loop_step. pose proof (IHe ctx b st gl x k W O C Bd) as P.
+  intros W N O C Bd. unfold loop_step. pose proof (IHe ctx b st gl X k W O C Bd) as P.
   destruct (ev_expr ev ctx b st gl) as [[fs st'|er|p|] gl']; cbn in P; try exact I.
   - destruct P as (P1 & P2 & P3 & P4 & P5).
     assert (Lt : off st < off st').
@@ -492,7 +532,7 @@ Proof.
     destruct (extend_all acc fs) as [acc'|]; [|exact I].
     eapply postA_later; [exact P1|exact P3| |].
     + intros E. lia.
-    + apply (IHl ctx b plus st' (S it) acc' gl' x); [apply wfe_kat; exact W|exact N| |exact P4|exact P5].
+    + apply (IHl ctx b plus st' (S it) acc' gl' X); [apply wfe_kat; exact W|exact N| |exact P4|exact P5].
       eapply opn_kat; [|exact (G_mono _ _ _ _ P3)|exact O]. auto.
   - destruct P as (P3 & P4). destruct (plus && Nat.eqb it 0) eqn:PI; cbn.
     + split; assumption.
@@ -528,6 +568,9 @@ Proof.
   - destruct P as (P3 & P4). split; [eapply G_pre; eauto|exact P4].
 Qed.
 
+Lemma opn_pre X k st gl gl1 : g_cache gl1 = g_cache gl -> opn X k st gl -> opn X k st gl1.
+Proof. intros E O. eapply opn_same; [reflexivity| |exact O]. intros e H. unfold has_entry in *. rewrite E. exact H. Qed.
+
 Lemma run_checks_same cs v : forall st' gl,
   match run_checks ustate scfg hk cs v st' gl with
   | (MOk _ s, gl2) => s = st' /\ g_cache gl2 = g_cache gl /\ g_evals gl2 = g_evals gl
@@ -541,14 +584,14 @@ Proof.
   - cbn. auto.
 Qed.
 
-Theorem rule_body_post r st gl x k :
-  wfe x k (negb (fl_no_skip_ws (flags_of (r_directives r)))) (r_def r) = true -> opn x k st gl -> CInv gl -> bnd LEN st ->
+Theorem rule_body_post r st gl X k :
+  wfe X k (negb (fl_no_skip_ws (flags_of (r_directives r)))) (r_def r) = true -> opn X k st gl -> CInv gl -> bnd LEN st ->
   postA (enull (r_def r)) k st gl (rule_body ustate scfg fcfg hk g ev r st gl).
 Proof.
   intros W O C Bd. unfold rule_body.
   destruct (get_fields fcfg (gf_fuel g) g (r_def r)) as [rf| |]; try exact I.
   set (ctx := {| c_skip := negb (fl_no_skip_ws (flags_of (r_directives r))); c_fields := rf |}).
-  pose proof (IHe ctx (r_def r) st gl x k W O C Bd) as P.
+  pose proof (IHe ctx (r_def r) st gl X k W O C Bd) as P.
   destruct (ev_expr ev ctx (r_def r) st gl) as [[fs st'|e|p|] gl']; cbn in P; try exact I; [|exact P].
   destruct P as (P1 & P2 & P3 & P4 & P5).
   match goal with |- postA _ _ _ _ (match ?o with _ => _ end) => destruct o as [v|] end; [|exact I].
@@ -578,9 +621,9 @@ Qed.
 
 (* the memoizing wrapper on a miss: the body's own evaluations plus this one *)
 Lemma G_miss n p k gl gl' c :
-  bound_ok rk k (UCall n) = true -> entok (n, p) ->
+  bound_ok rk0 k (UCall n) = true -> entok (n, p) ->
   cache_get n p (g_cache gl) = None ->
-  G p (Some (rk (UCall n))) (log_eval ustate (n, p) gl) gl' ->
+  G p (Some (rk0 (UCall n))) (log_eval ustate (n, p) gl) gl' ->
   G p k gl (cache_put ustate n p c gl').
 Proof.
   intros B Tok Miss [M (d & E & F & N & A & C & T)]. split.
@@ -615,12 +658,6 @@ Lemma is_lrule_found r : find_grule g (r_name r) = Some (GRule r) ->
   is_lrule g (r_name r) = fl_left_recursive (flags_of (r_directives r)).
 Proof. intro F. unfold is_lrule. rewrite F. reflexivity. Qed.
 
-Lemma bound_trans k n : bound_ok rk k (UCall n) = true ->
-  forall u, bound_ok rk (Some (rk (UCall n))) u = true -> bound_ok rk k u = true.
-Proof.
-  intros B u Bu. destruct k as [k0|]; [|reflexivity]. cbn in *. apply Nat.ltb_lt in B. apply Nat.ltb_lt in Bu. apply Nat.ltb_lt. lia.
-Qed.
-
 Lemma hit_post n st gl k c :
   cache_get n (off st) (g_cache gl) = Some c -> CInv gl ->
   forall gl', g_cache gl' = g_cache gl -> g_evals gl' = g_evals gl ->
@@ -632,33 +669,41 @@ Proof.
   - split; [apply G_same; assumption|eapply CInv_same; [|exact C]; assumption].
 Qed.
 
+Lemma opn_put X k st gl n o c : opn X k st gl -> opn X k st (cache_put ustate n o c gl).
+Proof. intro O. eapply opn_same; [reflexivity| |exact O]. intros e H. apply has_entry_put. exact H. Qed.
+
+(* the body of the demanded unit (X, UCall r) *)
+Lemma unit_body r X :
+  find_grule g (r_name r) = Some (GRule r) -> dem X (UCall (r_name r)) = true ->
+  wfe (if fl_left_recursive (flags_of (r_directives r)) then r_name r :: X else X)
+      (Some (rkX X (UCall (r_name r)))) (negb (fl_no_skip_ws (flags_of (r_directives r)))) (r_def r) = true.
+Proof. intros F D. pose proof (Hunit _ _ D) as K. cbn [unit_ok] in K. rewrite F in K. exact K. Qed.
+
 (* one turn of the growth loop of a @leftrec rule that is open at this offset *)
-Theorem grow_step_post r st best gl :
+Theorem grow_step_post r X st best gl :
   In (GRule r) g -> find_grule g (r_name r) = Some (GRule r) ->
-  fl_left_recursive (flags_of (r_directives r)) = true ->
-  has_entry (r_name r, off st) gl -> bestok (r_name r) st best -> CInv gl -> bnd LEN st ->
-  postA (nul (r_name r)) (Some (rk (UCall (r_name r)))) st gl (grow_step ustate scfg fcfg rcfg hk g ev r st best gl).
+  fl_left_recursive (flags_of (r_directives r)) = true -> dem X (UCall (r_name r)) = true ->
+  opn (r_name r :: X) (Some (rkX X (UCall (r_name r)))) st gl -> bestok (r_name r) st best -> CInv gl -> bnd LEN st ->
+  postA (nul (r_name r)) (Some (rkX X (UCall (r_name r)))) st gl (grow_step ustate scfg fcfg rcfg hk g ev r st best gl).
 Proof.
-  intros Hin F LR He Hb C Bd. unfold grow_step.
-  pose proof (wfo_rank g nul rk WF _ Hin) as K. cbn [rank_ok_once] in K.
-  apply andb_prop in K. destruct K as [K _]. apply andb_prop in K. destruct K as [K _]. rewrite LR in K.
-  pose proof (wfo_nul g nul rk WF _ Hin) as Kn. cbn [nul_ok_rule] in Kn.
+  intros Hin F LR D O Hb C Bd. unfold grow_step.
+  pose proof (unit_body r X F D) as K. rewrite LR in K.
+  pose proof (wf_nul' _ Hin) as Kn. cbn [nul_ok_rule] in Kn.
   assert (Hn : enull (r_def r) = true -> nul (r_name r) = true).
   { intro H. rewrite H in Kn. exact Kn. }
   set (gl1 := trace ustate (TInfo 2) gl).
   assert (C1 : CInv gl1) by (eapply CInv_same; [|exact C]; reflexivity).
-  assert (O : opn (Some (r_name r)) (Some (rk (UCall (r_name r)))) st gl1).
-  { intros a Ha. injection Ha as <-. split; [rewrite (is_lrule_found r F); exact LR|]. intros _. exact He. }
-  pose proof (rule_body_post r st gl1 _ _ K O C1 Bd) as P.
+  assert (O1 : opn (r_name r :: X) (Some (rkX X (UCall (r_name r)))) st gl1) by (eapply opn_pre; [|exact O]; reflexivity).
+  pose proof (rule_body_post r st gl1 _ _ K O1 C1 Bd) as P.
   apply (postA_pre _ _ _ gl gl1) in P; [|reflexivity|reflexivity].
   destruct (rule_body ustate scfg fcfg hk g ev r st gl1) as [[v st'|e|p|] gl2]; cbn in P; try exact I.
   - destruct P as (P1 & P2 & P3 & P4 & P5).
-    assert (Grow : postA (nul (r_name r)) (Some (rk (UCall (r_name r)))) st gl
+    assert (Grow : postA (nul (r_name r)) (Some (rkX X (UCall (r_name r)))) st gl
                      (ev_grow ev r st (COk v st') (cache_put ustate (r_name r) (off st) (COk v st') gl2))).
-    { eapply postA_same_off; [reflexivity| | |apply IHg; try assumption].
+    { eapply postA_same_off; [reflexivity| | |apply (IHg r X); try assumption].
       - eapply G_trans; [exact P3|apply G_put].
       - auto.
-      - apply has_entry_put_self.
+      - apply opn_put. eapply opn_same; [reflexivity|exact (G_mono _ _ _ _ P3)|exact O].
       - cbn. split; [exact P1|]. split; [auto|exact P5].
       - apply CInv_put; [exact P4|]. intros v0 s0 E. injection E as <- <-. split; [exact P1|split; [auto|exact P5]]. }
     destruct best as [bv bst|be]; [|exact Grow].
@@ -671,14 +716,13 @@ Proof.
     + cbn. split; assumption.
 Qed.
 
-Theorem memo_wrap_post r st gl k :
-  In (GRule r) g -> find_grule g (r_name r) = Some (GRule r) -> callok k (r_name r) st gl -> CInv gl -> bnd LEN st ->
+Theorem memo_wrap_post r st gl X k :
+  In (GRule r) g -> find_grule g (r_name r) = Some (GRule r) -> callok X k (r_name r) st gl -> opn X k st gl ->
+  CInv gl -> bnd LEN st ->
   postA (nul (r_name r)) k st gl (memo_wrap ustate scfg fcfg rcfg hk g ev r st gl).
 Proof.
-  intros Hin F B C Bd. unfold memo_wrap.
-  pose proof (wfo_rank g nul rk WF _ Hin) as K. cbn [rank_ok_once] in K.
-  apply andb_prop in K. destruct K as [K _]. apply andb_prop in K. destruct K as [K _].
-  pose proof (wfo_nul g nul rk WF _ Hin) as Kn. cbn [nul_ok_rule] in Kn.
+  intros Hin F B O C Bd. unfold memo_wrap.
+  pose proof (wf_nul' _ Hin) as Kn. cbn [nul_ok_rule] in Kn.
   assert (Hn : enull (r_def r) = true -> nul (r_name r) = true).
   { intro H. rewrite H in Kn. exact Kn. }
   destruct (fl_left_recursive (flags_of (r_directives r))) eqn:LR.
@@ -686,24 +730,37 @@ Proof.
     destruct (cache_get (r_name r) (off st) (g_cache gl)) as [c|] eqn:CG.
     + apply (hit_post _ _ _ _ _ CG C); reflexivity.
     + destruct B as [B|[_ B]]; [|exfalso; apply B; exact CG].
+      unfold OnceWF.callb in B. apply andb_prop in B. destruct B as [B _]. apply andb_prop in B. destruct B as [B D].
       eapply postA_same_off; [reflexivity|apply G_put| |].
       * intro H. exact H.
-      * eapply postA_bound; [exact (bound_trans _ _ B)|intro H; exact H|].
-        apply IHg; try assumption.
-        -- apply has_entry_put_self.
+      * eapply postA_bound; [exact (kle_call _ _ _ B)|intro H; exact H|].
+        apply (IHg r (cx X k)); try assumption.
+        -- intros a [<-|Ha].
+           ++ split; [rewrite (is_lrule_found r F); exact LR|]. intros _. apply has_entry_put_self.
+           ++ apply (opn_put _ _ _ _ _ _ _ (opn_cx _ _ _ _ _ O)). exact Ha.
         -- exact I.
         -- apply CInv_put; [exact C|]. intros v0 s0 E. discriminate.
-  - assert (B' : bound_ok rk k (UCall (r_name r)) = true).
+  - assert (B' : callb X k (UCall (r_name r)) = true).
     { destruct B as [B|[B _]]; [exact B|]. rewrite (is_lrule_found r F), LR in B. discriminate. }
-    pose proof (bound_trans _ _ B') as Tr.
+    unfold OnceWF.callb in B'. apply andb_prop in B'. destruct B' as [B' _]. apply andb_prop in B'. destruct B' as [B' D].
+    pose proof (unit_body r (cx X k) F D) as K. rewrite LR in K.
+    pose proof (kle_call _ _ _ B') as Tr.
     destruct (fl_memoize (flags_of (r_directives r))) eqn:FM.
     + assert (Tok : entok (r_name r, off st)).
       { split; [apply mnames_in; assumption|]. cbn. unfold bnd in Bd. lia. }
+      (* the rank of a memoized rule does not depend on the context *)
+      assert (Ei : rkX (cx X k) (UCall (r_name r)) = rk0 (UCall (r_name r))).
+      { pose proof (Hmemo _ _ D) as Hm. cbn [memo_ok] in Hm. unfold is_mrule in Hm. rewrite F, LR, FM in Hm. cbn in Hm.
+        apply Nat.eqb_eq in Hm. exact Hm. }
+      assert (B0 : bound_ok rk0 k (UCall (r_name r)) = true).
+      { destruct k as [k0|]; [|reflexivity]. cbn in Ei, B' |- *. rewrite <- Ei. exact B'. }
       destruct (cache_get (r_name r) (off st) (g_cache gl)) as [c|] eqn:CG.
       * apply (hit_post _ _ _ _ _ CG C); reflexivity.
       * set (gl1 := log_eval ustate (r_name r, off st) gl).
         assert (C1 : CInv gl1) by (eapply CInv_same; [|exact C]; reflexivity).
-        pose proof (rule_body_post r st gl1 None (Some (rk (UCall (r_name r)))) K (opn_none _ _ _) C1 Bd) as P.
+        assert (O1 : opn (cx X k) (Some (rkX (cx X k) (UCall (r_name r)))) st gl1).
+        { eapply opn_pre; [|apply opn_cx; exact O]. reflexivity. }
+        pose proof (rule_body_post r st gl1 _ _ K O1 C1 Bd) as P. rewrite Ei in P.
         destruct (rule_body ustate scfg fcfg hk g ev r st gl1) as [[v st'|e|p|] gl']; cbn in P; try exact I.
         -- destruct P as (P1 & P2 & P3 & P4 & P5). cbn. split; [exact P1|]. split; [auto|]. split; [|split; [|exact P5]].
            ++ eapply G_miss; eauto.
@@ -711,18 +768,18 @@ Proof.
         -- destruct P as (P3 & P4). rewrite Hclosed. cbn. split.
            ++ eapply G_miss; eauto.
            ++ apply CInv_put; [exact P4|]. intros v0 s0 E. discriminate.
-    + eapply postA_bound; [exact Tr|exact Hn|]. apply (rule_body_post r st gl None); [exact K|apply opn_none|exact C|exact Bd].
+    + eapply postA_bound; [exact Tr|exact Hn|]. apply (rule_body_post r st gl (cx X k)); [exact K|apply opn_cx; exact O|exact C|exact Bd].
 Qed.
 
-Lemma char_parts_post nm ps : forall st gl k,
-  (forall m, In (CPIdent m) ps -> bound_ok rk k (UCall m) = true) -> CInv gl -> bnd LEN st ->
+Lemma char_parts_post nm X ps : forall st gl k,
+  (forall m, In (CPIdent m) ps -> callb X k (UCall m) = true) -> opn X k st gl -> CInv gl -> bnd LEN st ->
   postA (existsb (fun p => match p with CPIdent m => nul m | _ => false end) ps) k st gl
         (char_parts ustate scfg tcfg ev nm ps st gl).
 Proof.
-  induction ps as [|pt ps IH]; intros st gl k B C Bd; cbn [char_parts]; [apply fail_post; exact C|].
+  induction ps as [|pt ps IH]; intros st gl k B O C Bd; cbn [char_parts]; [apply fail_post; exact C|].
   assert (IH' : postA (existsb (fun p => match p with CPIdent m => nul m | _ => false end) ps) k st gl
                       (char_parts ustate scfg tcfg ev nm ps st gl)).
-  { apply IH; [|exact C|exact Bd]. intros m Hm. apply B. right. exact Hm. }
+  { apply IH; [|exact O|exact C|exact Bd]. intros m Hm. apply B. right. exact Hm. }
   destruct pt as [i|a b|n].
   - destruct (decode_item i) as [c| |]; try exact I.
     pose proof (off_clit scfg tcfg st c) as T.
@@ -734,28 +791,32 @@ Proof.
     destruct (parse_character_range scfg tcfg st x y) as [v st'|e| |]; cbn in T; try exact I.
     + destruct T as [T1 T2]. cbn. split; [lia|]. split; [intro; lia|]. split; [apply G_refl|split; [exact C|auto]].
     + exact IH'.
-  - pose proof (IHr n st gl k (or_introl (B n (or_introl eq_refl))) C Bd) as P.
+  - pose proof (IHr n st gl X k (or_introl (B n (or_introl eq_refl))) O C Bd) as P.
     destruct (ev_rule ev n st gl) as [[v st'|e|p|] gl']; cbn in P; try exact I.
     + destruct P as (P1 & P2 & P3 & P4 & P5). cbn. split; [exact P1|]. split; [|split; [assumption|split; assumption]].
       intro E. rewrite (P2 E). reflexivity.
     + destruct P as (P3 & P4).
-      eapply postA_same_off; [reflexivity|exact P3| |apply IH; [|exact P4|exact Bd]].
+      eapply postA_same_off; [reflexivity|exact P3| |apply IH; [| |exact P4|exact Bd]].
       * cbn [existsb]. intro H. rewrite H. apply Bool.orb_true_r.
       * intros m Hm. apply B. right. exact Hm.
+      * eapply opn_same; [reflexivity|exact (G_mono _ _ _ _ P3)|exact O].
 Qed.
 
-Lemma char_rule_post r st gl k :
-  In (GChar r) g -> bound_ok rk k (UCall (cr_name r)) = true -> CInv gl -> bnd LEN st ->
+Lemma char_rule_post r st gl X k :
+  In (GChar r) g -> find_grule g (cr_name r) = Some (GChar r) -> callb X k (UCall (cr_name r)) = true -> opn X k st gl ->
+  CInv gl -> bnd LEN st ->
   postA (nul (cr_name r)) k st gl (char_rule_body ustate scfg tcfg hk ev r st gl).
 Proof.
-  intros Hin B C Bd.
-  pose proof (wfo_rank g nul rk WF _ Hin) as K. cbn [rank_ok_once] in K. rewrite forallb_forall in K.
-  pose proof (wfo_nul g nul rk WF _ Hin) as Kn. cbn [nul_ok_rule] in Kn.
+  intros Hin F B O C Bd.
+  unfold OnceWF.callb in B. apply andb_prop in B. destruct B as [B _]. apply andb_prop in B. destruct B as [B D].
+  pose proof (Hunit _ _ D) as K. cbn [unit_ok] in K. rewrite F in K. rewrite forallb_forall in K.
+  pose proof (wf_nul' _ Hin) as Kn. cbn [nul_ok_rule] in Kn.
   assert (P : postA (nul (cr_name r)) k st gl (char_parts ustate scfg tcfg ev (cr_name r) (cr_choices r) st gl)).
-  { eapply postA_bound; [| |apply (char_parts_post (cr_name r) (cr_choices r) st gl (Some (rk (UCall (cr_name r)))))].
-    - intros u Bu. destruct k as [k0|]; [|reflexivity]. cbn in *. apply Nat.ltb_lt in B. apply Nat.ltb_lt in Bu. apply Nat.ltb_lt. lia.
+  { eapply postA_bound; [| |apply (char_parts_post (cr_name r) (cx X k) (cr_choices r) st gl (Some (rkX (cx X k) (UCall (cr_name r)))))].
+    - apply kle_call. exact B.
     - intro H. rewrite H in Kn. exact Kn.
     - intros m Hm. specialize (K _ Hm). cbn in K. exact K.
+    - apply opn_cx. exact O.
     - exact C.
     - exact Bd. }
   unfold char_rule_body. destruct (cr_checks r); [exact P|].
@@ -768,7 +829,7 @@ Lemma extern_post r st gl k :
   In (GExtern r) g -> CInv gl -> bnd LEN st ->
   postA (nul (er_name r)) k st gl (extern_rule_body ustate scfg hk r st gl).
 Proof.
-  intros Hin C Bd. pose proof (wfo_nul g nul rk WF _ Hin) as Kn. cbn [nul_ok_rule] in Kn.
+  intros Hin C Bd. pose proof (wf_nul' _ Hin) as Kn. cbn [nul_ok_rule] in Kn.
   unfold extern_rule_body. destruct (h_extern hk (er_function r) (rest st) (g_user gl)) as [res u].
   destruct res as [[v n]|msg].
   - unfold advance_safe, advance. destruct (Nat.ltb (length (rest st)) n) eqn:E; [exact I|]. apply Nat.ltb_ge in E.
@@ -778,30 +839,30 @@ Proof.
   - cbn. split; [apply G_same; reflexivity|eapply CInv_same; [|exact C]; reflexivity].
 Qed.
 
-Theorem rule_step_post n st gl k :
-  callok k n st gl -> CInv gl -> bnd LEN st ->
+Theorem rule_step_post n st gl X k :
+  callok X k n st gl -> opn X k st gl -> CInv gl -> bnd LEN st ->
   postA (nul n) k st gl (rule_step ustate scfg tcfg fcfg rcfg hk g ev n st gl).
 Proof.
-  intros B C Bd. unfold rule_step.
-  assert (NL : is_lrule g n = false -> bound_ok rk k (UCall n) = true).
+  intros B O C Bd. unfold rule_step.
+  assert (NL : is_lrule g n = false -> callb X k (UCall n) = true).
   { intro H. destruct B as [B|[B _]]; [exact B|]. rewrite H in B. discriminate. }
   destruct (find_grule g n) as [[r|r|r]|] eqn:F.
   - destruct (fg_in _ _ _ F) as [Hin Hn]. cbn in Hn. subst n.
     set (gl1 := trace ustate (TStart (r_name r) (off st)) gl).
     assert (C1 : CInv gl1) by (eapply CInv_same; [|exact C]; reflexivity).
-    assert (B1 : callok k (r_name r) st gl1).
+    assert (B1 : callok X k (r_name r) st gl1).
     { destruct B as [B|[B1 B2]]; [left; exact B|right; split; [exact B1|exact B2]]. }
-    pose proof (memo_wrap_post r st gl1 k Hin F B1 C1 Bd) as P.
+    assert (O1 : opn X k st gl1) by (eapply opn_pre; [|exact O]; reflexivity).
+    pose proof (memo_wrap_post r st gl1 X k Hin F B1 O1 C1 Bd) as P.
     apply (postA_pre _ _ _ gl gl1) in P; [|reflexivity|reflexivity].
     destruct (memo_wrap ustate scfg fcfg rcfg hk g ev r st gl1) as [[v st'|e|p|] gl']; cbn in P |- *; try exact I.
     + destruct P as (P1 & P2 & P3 & P4 & P5). split; [exact P1|]. split; [exact P2|].
       split; [eapply G_post; [| |exact P3]; reflexivity|split; [eapply CInv_same; [|exact P4]; reflexivity|exact P5]].
     + destruct P as (P3 & P4). split; [eapply G_post; [| |exact P3]; reflexivity|eapply CInv_same; [|exact P4]; reflexivity].
-  - destruct (fg_in _ _ _ F) as [Hin Hn]. cbn in Hn. subst n. apply char_rule_post; [exact Hin| |exact C|exact Bd].
+  - destruct (fg_in _ _ _ F) as [Hin Hn]. cbn in Hn. subst n. apply (char_rule_post r st gl X); [exact Hin|exact F| |exact O|exact C|exact Bd].
     apply NL. unfold is_lrule. rewrite F. reflexivity.
   - destruct (fg_in _ _ _ F) as [Hin Hn]. cbn in Hn. subst n. apply extern_post; assumption.
-  - assert (B' : bound_ok rk k (UCall n) = true) by (apply NL; unfold is_lrule; rewrite F; reflexivity).
-    destruct (name_eqb n n_char) eqn:E1.
+  - destruct (name_eqb n n_char) eqn:E1.
     + apply lift_post; [exact C|exact Bd|]. destruct (nul n); cbn; [apply tadv_weaken|]; apply off_char.
     + destruct (name_eqb n n_Whitespace) eqn:E2; [|exact I]. apply name_eqb_eq in E2. subst n.
       apply lift_post; [exact C|exact Bd|]. rewrite wf_ws'. cbn. apply off_ws.
@@ -811,22 +872,22 @@ End Step.
 
 (* ---- all levels --------------------------------------------------------------------- *)
 Theorem once_levels : forall n,
-  (forall ctx e st gl x k, wfe x k (c_skip ctx) e = true -> opn x k st gl -> CInv gl -> bnd LEN st ->
+  (forall ctx e st gl X k, wfe X k (c_skip ctx) e = true -> opn X k st gl -> CInv gl -> bnd LEN st ->
      postA (enull e) k st gl (ev_expr (Run n) ctx e st gl)) /\
-  (forall nm st gl k, callok k nm st gl -> CInv gl -> bnd LEN st ->
+  (forall nm st gl X k, callok X k nm st gl -> opn X k st gl -> CInv gl -> bnd LEN st ->
      postA (nul nm) k st gl (ev_rule (Run n) nm st gl)) /\
-  (forall ctx b plus st it acc gl x k, wfe x k (c_skip ctx) b = true -> enull b = false -> opn x k st gl -> CInv gl -> bnd LEN st ->
+  (forall ctx b plus st it acc gl X k, wfe X k (c_skip ctx) b = true -> enull b = false -> opn X k st gl -> CInv gl -> bnd LEN st ->
      postA (negb (plus && Nat.eqb it 0)) k st gl (ev_loop (Run n) ctx b plus st it acc gl)) /\
-  (forall r st best gl, In (GRule r) g -> find_grule g (r_name r) = Some (GRule r) ->
-     fl_left_recursive (flags_of (r_directives r)) = true ->
-     has_entry (r_name r, off st) gl -> bestok (r_name r) st best -> CInv gl -> bnd LEN st ->
-     postA (nul (r_name r)) (Some (rk (UCall (r_name r)))) st gl (ev_grow (Run n) r st best gl)).
+  (forall r X st best gl, In (GRule r) g -> find_grule g (r_name r) = Some (GRule r) ->
+     fl_left_recursive (flags_of (r_directives r)) = true -> dem X (UCall (r_name r)) = true ->
+     opn (r_name r :: X) (Some (rkX X (UCall (r_name r)))) st gl -> bestok (r_name r) st best -> CInv gl -> bnd LEN st ->
+     postA (nul (r_name r)) (Some (rkX X (UCall (r_name r)))) st gl (ev_grow (Run n) r st best gl)).
 Proof.
   induction n as [|n (IHe & IHr & IHl & IHg)].
   - split; [|split; [|split]]; intros; exact I.
   - split; [|split; [|split]]; intros; cbn [run step ev_expr ev_rule ev_loop ev_grow].
     + eapply expr_step_post; eassumption.
-    + apply rule_step_post; assumption.
+    + eapply rule_step_post; eassumption.
     + eapply loop_step_post; eassumption.
     + apply grow_step_post; assumption.
 Qed.
@@ -839,12 +900,15 @@ End Once.
 (* the packrat bound: when the parse returns, no (rule, offset) occurs twice among the body
    evaluations of memoized rules that were started; each is at a memoized rule of the grammar and at
    an offset inside the input, so there are at most (memoized rules) x (input length + 1) of them.
-   Grammars with @leftrec rules are included as long as the certificate holds with the only
-   unranked reference being a @leftrec rule's own name inside its own body (OnceWF.v). *)
-Theorem at_most_once_lr ustate scfg tcfg fcfg rcfg (hk : hooks ustate) g nul rk :
-  wf_check_once g nul rk = true ->
+   Stated for any set of demanded units `dem` that is closed (every demanded unit's body passes the
+   check, OnceWF.unit_ok) and on which memoized rules have one rank; the start rule is demanded in the
+   empty context. *)
+Theorem at_most_once_dem ustate scfg tcfg fcfg rcfg (hk : hooks ustate) g nul rkX dem :
+  nul_okX g nul = true ->
+  (forall X u, dem X u = true -> unit_ok g nul rkX dem X u = true) ->
+  (forall X u, dem X u = true -> memo_ok g rkX X u = true) ->
   memo_closed rcfg = true ->
-  forall n rule_name input u,
+  forall n rule_name input u, dem [] (UCall rule_name) = true ->
   match m_parse ustate scfg tcfg fcfg rcfg hk g n rule_name input u with
   | (MOk _ _, gl') | (MErr _, gl') =>
     NoDup (g_evals gl') /\
@@ -853,10 +917,12 @@ Theorem at_most_once_lr ustate scfg tcfg fcfg rcfg (hk : hooks ustate) g nul rk 
   | _ => True
   end.
 Proof.
-  intros WF Hc n rule_name input u. unfold m_parse.
-  destruct (once_levels ustate scfg tcfg fcfg rcfg hk g nul rk WF Hc (length input) n) as (_ & Hr & _).
+  intros Hn Hu Hm Hc n rule_name input u D. unfold m_parse.
+  destruct (once_levels ustate scfg tcfg fcfg rcfg hk g nul rkX dem Hn Hu Hm Hc (length input) n) as (_ & Hr & _).
   assert (Bd : bnd (length input) (init_state input)) by (unfold bnd, init_state; cbn; lia).
-  pose proof (Hr rule_name (init_state input) (init_glob ustate u) None (or_introl eq_refl) (CInv_init _ _ _ _) Bd) as P.
+  assert (B : callok ustate g rkX dem [] None rule_name (init_state input) (init_glob ustate u)).
+  { left. unfold callb. cbn. rewrite D. reflexivity. }
+  pose proof (Hr rule_name (init_state input) (init_glob ustate u) [] None B (opn_nil _ _ _ _ _) (CInv_init _ _ _ _) Bd) as P.
   assert (K : forall d : list (name * nat), NoDup d ->
             Forall (entok g (length input)) d ->
             NoDup d /\ Forall (fun e => In (fst e) (mnames g) /\ snd e <= length input) d /\
@@ -868,6 +934,48 @@ Proof.
   destruct (ev_rule (run ustate scfg tcfg fcfg rcfg hk g n) rule_name (init_state input) (init_glob ustate u)) as [[v st'|e|p|] gl']; cbn in P; try exact I.
   - destruct P as (_ & _ & [_ (d & E & _ & N & _ & _ & T)] & _). rewrite E. cbn [init_glob g_evals]. rewrite app_nil_r. apply K; assumption.
   - destruct P as ([_ (d & E & _ & N & _ & _ & T)] & _). rewrite E. cbn [init_glob g_evals]. rewrite app_nil_r. apply K; assumption.
+Qed.
+
+(* with a finite certificate: the demanded units as a list, checked by the boolean function *)
+Theorem at_most_once_lr ustate scfg tcfg fcfg rcfg (hk : hooks ustate) g nul rkX U :
+  wf_check_onceX g nul rkX U = true ->
+  memo_closed rcfg = true ->
+  forall n rule_name input u, memU U [] (UCall rule_name) = true ->
+  match m_parse ustate scfg tcfg fcfg rcfg hk g n rule_name input u with
+  | (MOk _ _, gl') | (MErr _, gl') =>
+    NoDup (g_evals gl') /\
+    Forall (fun e => In (fst e) (mnames g) /\ snd e <= length input) (g_evals gl') /\
+    length (g_evals gl') <= length (mnames g) * S (length input)
+  | _ => True
+  end.
+Proof.
+  intros W Hc. apply (at_most_once_dem ustate scfg tcfg fcfg rcfg hk g nul rkX (memU U)).
+  - unfold wf_check_onceX in W. apply andb_prop in W. tauto.
+  - intros X u D. exact (proj1 (wf_check_onceX_unit g nul rkX U W X u D)).
+  - intros X u D. exact (proj2 (wf_check_onceX_unit g nul rkX U W X u D)).
+  - exact Hc.
+Qed.
+
+(* without @leftrec rules nothing is ever open: the certificate of C01 (WellFormed.wf_check) suffices,
+   every unit demanded, ranks independent of the (empty) context *)
+Lemma wfe_wfeX nul rk : forall e X k s,
+  wfe nul rk k s e = true -> wfeX nul (fun _ => rk) (fun _ _ => true) X k s e = true.
+Proof.
+  induction e using expr_ind'; intros X k s W.
+  - cbn [wfe wfeX] in *. rewrite forallb_forall in *. intros y Hy. rewrite Forall_forall in H. apply H; auto.
+  - rewrite wfe_seq_eq in W. rewrite wfeX_seq_eq. revert k W. induction H as [|p ps Hp Hps IH]; intros k W; [reflexivity|].
+    cbn [wfseq wfseqX] in *. apply andb_prop in W. destruct W as [W1 W2]. rewrite (Hp _ _ _ W1). cbn. apply IH. exact W2.
+  - cbn [wfe wfeX] in *. auto.
+  - cbn [wfe wfeX] in *. auto.
+  - cbn [wfe wfeX] in *. apply andb_prop in W. destruct W as [W1 W2]. rewrite (IHe _ _ _ W1), W2. reflexivity.
+  - cbn [wfe wfeX] in *. auto.
+  - cbn [wfe wfeX] in *. auto.
+  - cbn [wfe wfeX] in *. unfold ws_ok in W. unfold wsb, callb. destruct s; [rewrite W|]; reflexivity.
+  - cbn [wfe wfeX] in *. unfold ws_ok in W. unfold wsb, callb. destruct s; [rewrite W|]; reflexivity.
+  - cbn [wfe wfeX] in *. unfold ws_ok in W. unfold wsb, callb. destruct s; [rewrite W|]; reflexivity.
+  - cbn [wfe wfeX] in *. unfold callb. rewrite W. reflexivity.
+  - cbn [wfe wfeX] in *. apply andb_prop in W. destruct W as [W1 W2]. unfold ws_ok in W1. unfold wsb, callb.
+    rewrite W2. rewrite Bool.orb_true_r. destruct s; [rewrite W1|]; reflexivity.
 Qed.
 
 Theorem at_most_once ustate scfg tcfg fcfg rcfg (hk : hooks ustate) g nul rk :
@@ -883,5 +991,23 @@ Theorem at_most_once ustate scfg tcfg fcfg rcfg (hk : hooks ustate) g nul rk :
   | _ => True
   end.
 Proof.
-  intros WF NoLR. apply (at_most_once_lr ustate scfg tcfg fcfg rcfg hk g nul rk). apply wf_check_once_of_wf_check; assumption.
+  intros WF NoLR Hc n rule_name input u.
+  apply (at_most_once_dem ustate scfg tcfg fcfg rcfg hk g nul (fun _ => rk) (fun _ _ => true)); [| | |exact Hc|reflexivity].
+  - unfold nul_okX. unfold wf_check in WF. apply andb_prop in WF. tauto.
+  - intros X u0 _. destruct u0 as [m|s m]; cbn [unit_ok].
+    + destruct (find_grule g m) as [[r|r|r]|] eqn:F; try reflexivity.
+      * destruct (fg_in _ _ _ F) as [Hin Hm]. cbn in Hm. subst m.
+        pose proof (wf_rank g nul rk WF _ Hin) as K. cbn [rank_ok_rule] in K.
+        apply andb_prop in K. destruct K as [K _]. apply andb_prop in K. destruct K as [K _].
+        rewrite (NoLR r Hin) in *. cbn [orb] in K. apply wfe_wfeX. exact K.
+      * destruct (fg_in _ _ _ F) as [Hin Hm]. cbn in Hm. subst m.
+        pose proof (wf_rank g nul rk WF _ Hin) as K. cbn [rank_ok_rule] in K.
+        rewrite forallb_forall in *. intros p Hp. specialize (K p Hp). destruct p; try reflexivity.
+        unfold callb, bound_ok. rewrite K. reflexivity.
+    + destruct (find_rule g m) as [r|] eqn:F; [|reflexivity].
+      destruct (fr_in _ _ _ F) as [Hin Hm]. subst m.
+      pose proof (wf_rank g nul rk WF _ Hin) as K. cbn [rank_ok_rule] in K.
+      apply andb_prop in K. destruct K as [K K3]. apply andb_prop in K. destruct K as [_ K2].
+      apply wfe_wfeX. destruct s; assumption.
+  - intros X u0 _. destruct u0 as [m|s m]; cbn [memo_ok]; [|reflexivity]. rewrite Nat.eqb_refl. destruct (is_mrule g m); reflexivity.
 Qed.
